@@ -30,13 +30,35 @@ Definition bound (scope : list str) (n : str) : bool :=
   | None => true
   | Some p => seqb p s_xml || seqb p s_xmlns || existsb (seqb p) scope
   end.
+(* element names must not have the prefix xmlns (Namespaces in XML, section 3: reserved prefixes) *)
+Definition bound_el (scope : list str) (n : str) : bool :=
+  bound scope n && match qprefix n with Some p => negb (seqb p s_xmlns) | None => true end.
+
+(* namespace declarations (section 3, "Namespace constraint: Reserved Prefixes and Namespace Names", and section 5/6 for the empty
+   value): xmlns="uri" declares the default namespace (prefix ""), xmlns:p="uri" the prefix p.
+     - a prefix cannot be declared for the empty namespace name (Namespaces 1.0),
+     - the prefix xmlns must not be declared, and nothing may be bound to the xmlns namespace name,
+     - the prefix xml may only be bound to the xml namespace name, and nothing else may be bound to it. *)
+Definition XML_NS : str := [104;116;116;112;58;47;47;119;119;119;46;119;51;46;111;114;103;47;88;77;76;47;49;57;57;56;47;110;97;109;101;115;112;97;99;101]%N.
+Definition XMLNS_NS : str := [104;116;116;112;58;47;47;119;119;119;46;119;51;46;111;114;103;47;50;48;48;48;47;120;109;108;110;115;47]%N.
+Definition decl_prefix (name : str) : option str :=
+  if seqb name s_xmlns then Some []
+  else match qprefix name with Some p => if seqb p s_xmlns then Some (skipn 6 name) else None | None => None end.
+Definition is_nil (s : str) : bool := match s with [] => true | _ => false end.
+Definition decl_ok (a : str * str) : bool :=
+  match decl_prefix (fst a) with
+  | None => true
+  | Some p => negb ((negb (is_nil p) && is_nil (snd a)) || seqb p s_xmlns || seqb (snd a) XMLNS_NS
+                    || xorb (seqb p s_xml) (seqb (snd a) XML_NS))
+  end.
+(* what is demanded of one element in the scope its own declarations extend *)
+Definition here_ns (scope : list str) (t : str) (a : list (str * str)) : bool :=
+  forallb decl_ok a && bound_el scope t && forallb (fun p => bound scope (fst p)) a.
 
 Fixpoint ns_ok (scope : list str) (x : xn) : bool :=
   match x with
   | Tx _ => true
-  | El t a kids =>
-      let scope' := declared a ++ scope in
-      bound scope' t && forallb (fun p => bound scope' (fst p)) a && forallb (ns_ok scope') kids
+  | El t a kids => let scope' := declared a ++ scope in here_ns scope' t a && forallb (ns_ok scope') kids
   end.
 
 Fixpoint dup_free (l : list str) : bool :=
